@@ -1038,3 +1038,129 @@ Example scaled_tile_nonvacuous :
   scaled_tile_sources g (avail_in_coverage g (0, 0, 600, 5120)) (tile_bbox g 0 0 1) 2 =
     Affected (0, 0, 1280, 1280) 2 2 [Some (0, 1, 2); None; Some (0, 0, 2); None].
 Proof. vm_compute. reflexivity. Qed.
+
+Local Open Scope Z_scope.
+Ltac Zify.zify_post_hook ::= Z.to_euclidean_division_equations.
+
+(* ================================================================== MESH path: divide_quad partitions the quad *)
+
+(* int(a + b / 2) for integers a, b *)
+Lemma trunc_half a b : trunc (inject_Z a + inject_Z b / 2)%Q = Z.quot (a * 2 + b) 2.
+Proof.
+  unfold trunc, Qplus, Qdiv, Qmult, Qinv, inject_Z. cbn [Qnum Qden Z.mul Pos.mul].
+  rewrite !Z.mul_1_r. reflexivity.
+Qed.
+
+(* Every pixel of the quad lies in exactly one of the quads divide_quad returns, every other pixel in none:
+   the recursion of transform_meshes always works on a partition of the output image. *)
+Lemma divide_quad_partition q0 q1 q2 q3 i j :
+  q0 <= q2 -> q1 <= q3 ->
+  length (filter (fun s => in_quadb s i j) (divide_quad (q0, q1, q2, q3))) =
+  if in_quadb (q0, q1, q2, q3) i j then 1%nat else 0%nat.
+Proof.
+  intros Hx Hy. unfold divide_quad. rewrite !trunc_half.
+  set (xc := Z.quot (q0 * 2 + (q2 - q0)) 2). set (yc := Z.quot (q1 * 2 + (q3 - q1)) 2).
+  assert (Hxc : q0 <= xc <= q2) by (unfold xc; lia).
+  assert (Hyc : q1 <= yc <= q3) by (unfold yc; lia).
+  clearbody xc yc.
+  destruct (2 * (q3 - q1) <? q2 - q0); [|destruct (2 * (q2 - q0) <? q3 - q1)];
+    cbn [filter in_quadb];
+    repeat match goal with
+           | |- context [if ?c then _ else _] => destruct c eqn:?
+           end; cbn [length]; lia.
+Qed.
+
+(* the pieces stay inside the quad *)
+Lemma divide_quad_inside q0 q1 q2 q3 s :
+  q0 <= q2 -> q1 <= q3 -> In s (divide_quad (q0, q1, q2, q3)) ->
+  let '(s0, s1, s2, s3) := s in q0 <= s0 <= s2 /\ s2 <= q2 /\ q1 <= s1 <= s3 /\ s3 <= q3.
+Proof.
+  intros Hx Hy. unfold divide_quad. rewrite !trunc_half.
+  set (xc := Z.quot (q0 * 2 + (q2 - q0)) 2). set (yc := Z.quot (q1 * 2 + (q3 - q1)) 2).
+  assert (Hxc : q0 <= xc <= q2) by (unfold xc; lia).
+  assert (Hyc : q1 <= yc <= q3) by (unfold yc; lia).
+  clearbody xc yc.
+  destruct (2 * (q3 - q1) <? q2 - q0); [|destruct (2 * (q2 - q0) <? q3 - q1)];
+    cbn [In]; intros H; repeat (destruct H as [<-|H]; [lia|]); contradiction.
+Qed.
+
+Example divide_quad_nonvacuous :
+  divide_quad (0, 0, 500, 500) = [(0, 0, 250, 250); (250, 0, 500, 250); (0, 250, 250, 500); (250, 250, 500, 500)] /\
+  divide_quad (100, 200, 200, 500) = [(100, 200, 200, 350); (100, 350, 200, 500)].
+Proof. split; vm_compute; reflexivity. Qed.
+
+Local Open Scope Q_scope.
+(* the source pixel coordinates computed for a corner of a mesh quad denote exactly the ground point
+   T(ground point of that corner of the output image): the affine maps around the external transformation are
+   exact inverses of the georeferences of the two images *)
+Lemma mesh_corner_exact (T : qpt -> qpt) sb sw sh db dw dh off q c :
+  pos_size sw sh -> nondegenerate sb ->
+  In c (dst_quad_to_src T sb sw sh db dw dh off q) ->
+  exists i j : Z,
+    (let '(q0, q1, q2, q3) := q in (i = q0 \/ i = q2) /\ (j = q1 \/ j = q3)) /\
+    qpt_eq (lin_transf (img_rect sw sh) sb c)
+           (T (lin_transf (img_rect dw dh) db (inject_Z i + off, inject_Z j + off))).
+Proof.
+  intros Hs Hsb. pose proof (img_rect_nondegenerate sw sh Hs) as Hr.
+  destruct q as [[[q0 q1] q2] q3]. unfold dst_quad_to_src. cbn [map In fst snd].
+  intros [<-|[<-|[<-|[<-|[]]]]];
+    [exists q0, q1|exists q0, q3|exists q2, q3|exists q2, q1];
+    (split; [tauto|apply lin_transf_inverse; assumption]).
+Qed.
+Local Open Scope Z_scope.
+
+(* the same along y for grids numbered from the top (origin ul / nw): rows are cut exactly where the tile lies below
+   the top edge of the meta bbox, also when the buffer is cut at the top edge of the grid bbox *)
+Lemma meta_tile_georef_y_ul m x y l mb sz pats k tx ty tl ox oy :
+  wf (mg m) -> valid_level (mg m) l = true -> 0 < msx m -> 0 < msy m -> ul (mg m) = true ->
+  meta_tile m x y l = (mb, sz, pats) ->
+  nth_error pats k = Some (Some (tx, ty, tl), (ox, oy)) ->
+  tl = l /\ snd (ul_offset_ground mb (tile_bbox (mg m) tx ty tl)) = oy * res_at (mg m) l.
+Proof.
+  intros Hwf Hv Hmx Hmy Hul H Hk. set (g := mg m) in *.
+  pose proof (res_at_pos g l Hwf Hv) as Hr. pose proof Hwf as (_ & _ & Htw & Hth & _).
+  destruct (meta_size_pos m l Hwf Hv Hmx Hmy) as [Hsx Hsy].
+  unfold meta_tile in H. fold g in H.
+  destruct (main_tile m x y l) as [[x0 y0] l0] eqn:Emain.
+  assert (Eidem : main_tile m x0 y0 l = (x0, y0, l)).
+  { unfold main_tile in *. destruct (meta_size m l) as [sx sy]. cbn [fst snd] in *.
+    injection Emain as <- <- _. rewrite !Z.div_mul by lia. reflexivity. }
+  destruct (buffered_bbox m (unbuffered_meta_bbox m x0 y0 l) l) as [mb' buffers] eqn:Ebuf.
+  injection H as <- _ <-.
+  rewrite nth_error_map, nth_error_combine_seq in Hk.
+  destruct (nth_error (meta_tile_list m x0 y0 l (meta_size m l)) k) as [ot|] eqn:Et; [|discriminate].
+  cbn [option_map fst snd] in Hk. injection Hk as -> Hoff.
+  unfold meta_tile_list in Et. rewrite Eidem in Et. fold g in Et. rewrite Hul in Et.
+  apply nth_error_create_tile_list in Et. destruct Et as (-> & _ & Hy).
+  split; [reflexivity|].
+  destruct (meta_size m l) as [sx sy] eqn:Ems. cbn [fst snd] in *.
+  assert (Hlen : Z.of_nat (length (zrange x0 (x0 + sx - 1))) = sx) by (rewrite length_zrange; lia).
+  apply nth_error_zrange in Hy. destruct Hy as [Hy _].
+  rewrite Nat2Z.inj_div, Hlen in Hy.
+  destruct buffers as [[[bl bb] br] bt]. unfold pattern_offset in Hoff. cbn [fst] in Hoff.
+  injection Hoff as _ <-.
+  assert (Htop : snd mb' - bt * res_at g l = gy1 g - y0 * res_at g l * th g).
+  { unfold buffered_bbox, unbuffered_meta_bbox in Ebuf. rewrite Ems in Ebuf. fold g in Ebuf.
+    set (r := res_at g l) in *.
+    assert (Hsp : 0 < r * th g) by nia.
+    assert (Hmax : Z.max (gy1 g - y0 * r * th g) (gy1 g - (y0 + sy - 1) * r * th g) = gy1 g - y0 * r * th g).
+    { apply Z.max_l. nia. }
+    destruct (tile_bbox g x0 y0 l) as [[[a0 a1] a2] a3] eqn:Ea.
+    destruct (tile_bbox g (x0 + sx - 1) (y0 + sy - 1) l) as [[[c0 c1] c2] c3] eqn:Ec.
+    assert (Ea3 : a3 = gy1 g - y0 * r * th g) by (unfold tile_bbox in Ea; fold r in Ea; rewrite Hul in Ea; injection Ea as _ _ _ <-; reflexivity).
+    assert (Ec3 : c3 = gy1 g - (y0 + sy - 1) * r * th g) by (unfold tile_bbox in Ec; fold r in Ec; rewrite Hul in Ec; injection Ec as _ _ _ <-; reflexivity).
+    unfold merge_bbox in Ebuf. rewrite Ea3, Ec3, Hmax in Ebuf.
+    destruct (mbuf m <=? 0) eqn:Eb0.
+    - injection Ebuf as <- _ _ _ <-. cbn [snd]. ring.
+    - destruct (gy1 g <? gy1 g - y0 * r * th g + mbuf m * r) eqn:Eclip;
+        repeat match type of Ebuf with
+               | context [if ?c then ?a else ?b] => destruct (if c then a else b) as [? ?]
+               end;
+        injection Ebuf as <- _ _ _ <-; cbn [snd].
+      + replace (gy1 g - y0 * r * th g + mbuf m * r - gy1 g) with ((mbuf m - y0 * th g) * r) by ring.
+        rewrite round5_int_exact by exact Hr. ring.
+      + ring. }
+  unfold ul_offset_ground. destruct mb' as [[[m0 m1] m2] m3]. cbn [snd] in Htop.
+  unfold tile_bbox. fold g. rewrite Hul. set (r := res_at g l) in *.
+  cbn [snd]. rewrite Hy. nia.
+Qed.
